@@ -250,8 +250,54 @@ def expect_print(mobs: str, io: dict):
     return "?" + m
 
 
+STRUCT_STATS = {"checked": 0, "matched": 0, "unparsed": 0, "mismatched": []}
+
+
+def add_real_literal_inputs(c, k, it, summary, known_inputs, rng=None):
+    """guided search: every literal the REAL generated code compares the input with (and its ASCII case variants) becomes an
+    input, so that an arm or phf key the model does not predict is exercised behaviourally"""
+    from . import gen as G
+    n = 0
+    for lit in G.literals_of_structure(summary):
+        for s_ in {lit, lit.lower(), lit.upper(), lit.swapcase()}:
+            if s_ not in known_inputs:
+                known_inputs.add(s_)
+                c.add_q(k, "fromstr", [hx(s_)], note="near-real-literal")
+                n += 1
+    c.add_q(k, "struct", ["EnumString"], note="structure")
+    return n
+
+
+def struct_probe_command(corpus, n, k, kind, args):
+    if kind != "struct":
+        return None
+    return "struct %d %s %s" % (n, args[0], hx(render_item(corpus.defs[k], [])))
+
+
+def compare_struct(corpus, k, iobs, mobs):
+    """the structural tie is an extra: a difference without observable effect is recorded, not reported"""
+    STRUCT_STATS["checked"] += 1
+    if iobs.startswith("unparsed") or iobs.startswith("HARNESS"):
+        STRUCT_STATS["unparsed"] += 1
+    elif iobs == mobs:
+        STRUCT_STATS["matched"] += 1
+    elif len(STRUCT_STATS["mismatched"]) < 5:
+        STRUCT_STATS["mismatched"].append({"definition": render_item(corpus.defs[k], []), "real": iobs[:600], "model": mobs[:600]})
+    return True, iobs == mobs, None
+
+
+def struct_coverage():
+    return {"structural_tie": {"what": "the real generated EnumString code (tokens read by harness/genprobe: phf entries, match arms in order, "
+                                       "fall-through, error type, TryFrom delegation) compared with the model's from_str_code; literals of the REAL code "
+                                       "are fed back as inputs (guided search); a structural difference alone is not reported",
+                               "definitions_checked": STRUCT_STATS["checked"], "identical": STRUCT_STATS["matched"],
+                               "not_readable": STRUCT_STATS["unparsed"], "different": STRUCT_STATS["mismatched"]}}
+
+
 def compare_strings(corpus, k, kind, args, note, iobs, mobs, cfg):
     it = corpus.defs[k]
+    if kind == "struct":
+        return compare_struct(corpus, k, iobs, mobs)
     if mobs.startswith("generr:") or mobs == "genpanic":
         return False, False, "the model's generator rejects a definition the corpus believed to be in the domain: " + mobs
     if kind == "fromstr":
